@@ -109,8 +109,8 @@ type verdict struct {
 	CMUpTo int
 }
 
-func judge(schema *ast.Schema, r Req) verdict {
-	doc, err := parser.ParseQuery(&ast.Source{Input: r.Query})
+func judge(schema *ast.Schema, r Req, tokenLimit int) verdict {
+	doc, err := parser.ParseQueryWithTokenLimit(&ast.Source{Input: r.Query}, tokenLimit)
 	if err != nil {
 		return verdict{Reason: "parse"}
 	}
@@ -172,11 +172,19 @@ func Run(rc *core.RunCtx) {
 		tw := Twins[t.Choose(len(Twins), "twin")]
 		ws = append(ws, tw[0], tw[1])
 	}
+	// parser token limit (0 = none): a document that exceeds it fails parsing
+	tokenLimit := []int{0, 0, 0, 10, 25, 60}[t.Choose(6, "token-limit")]
 	reqs := make([]Req, n)
 	verdicts := make([]verdict, n)
 	for i := range reqs {
 		reqs[i] = ws[t.Choose(len(ws), "pick")]
-		verdicts[i] = judge(schema, reqs[i])
+		verdicts[i] = judge(schema, reqs[i], tokenLimit)
+		if tokenLimit > 0 && verdicts[i].Reason == "parse" {
+			if _, perr := parser.ParseQuery(&ast.Source{Input: reqs[i].Query}); perr == nil {
+				verdicts[i].Reason = "token-limit"
+				w.Count("token_limit_rejections")
+			}
+		}
 	}
 
 	// extensions
@@ -237,6 +245,7 @@ func Run(rc *core.RunCtx) {
 			srv.SetQueryCache(cache)
 		}
 		srv.SetDisableSuggestion(disableSuggestion)
+		srv.SetParserTokenLimit(tokenLimit)
 		for _, e := range hexts {
 			srv.Use(e)
 		}
@@ -247,6 +256,7 @@ func Run(rc *core.RunCtx) {
 			ex.SetQueryCache(cache)
 		}
 		ex.SetDisableSuggestion(disableSuggestion)
+		ex.SetParserTokenLimit(tokenLimit)
 		for _, e := range hexts {
 			ex.Use(e)
 		}
@@ -419,7 +429,7 @@ func Run(rc *core.RunCtx) {
 		evs := mon.evs[i]
 		desc := func() string {
 			var sb strings.Builder
-			fmt.Fprintf(&sb, "request %d (%s, expected %s) query=%q opName=%q vars=%v http=%v cache=%d nosuggest=%v exts=%v\nresponse: %s\nevents:", i, reqs[i].Kind, map[bool]string{true: "accepted", false: "rejected:" + vd.Reason}[vd.Accepted], reqs[i].Query, reqs[i].OpName, reqs[i].Vars, viaHTTP, cacheKind, disableSuggestion, masks(exts), res.Body)
+			fmt.Fprintf(&sb, "request %d (%s, expected %s) query=%q opName=%q vars=%v http=%v cache=%d nosuggest=%v tokenlimit=%d exts=%v\nresponse: %s\nevents:", i, reqs[i].Kind, map[bool]string{true: "accepted", false: "rejected:" + vd.Reason}[vd.Accepted], reqs[i].Query, reqs[i].OpName, reqs[i].Vars, viaHTTP, cacheKind, disableSuggestion, tokenLimit, masks(exts), res.Body)
 			for _, e := range evs {
 				fmt.Fprintf(&sb, " %s/%d/%s", e.Kind, e.Ext, e.Path)
 			}
@@ -492,8 +502,8 @@ func Run(rc *core.RunCtx) {
 	for i := range reqs {
 		sig = append(sig, reqs[i].Kind)
 	}
-	rc.Res.Sig = execsim.SigOf(v.Name, strings.Join(sig, ","), masks(exts), cacheKind, disableSuggestion, viaHTTP, w.LogHash())
-	rc.Res.Sample = map[string]any{"variant": v.Name, "requests": sig, "extension_masks": masks(exts), "cache": cacheKind, "disable_suggestion": disableSuggestion, "http": viaHTTP, "max_overlap": maxOverlap}
+	rc.Res.Sig = execsim.SigOf(v.Name, strings.Join(sig, ","), masks(exts), cacheKind, disableSuggestion, tokenLimit, viaHTTP, w.LogHash())
+	rc.Res.Sample = map[string]any{"variant": v.Name, "requests": sig, "extension_masks": masks(exts), "cache": cacheKind, "disable_suggestion": disableSuggestion, "token_limit": tokenLimit, "http": viaHTTP, "max_overlap": maxOverlap}
 }
 
 func masks(exts []extCfg) []int {
